@@ -825,7 +825,9 @@ func (r *zRun) opFields(credMap [][]interface{}) {
 		}()
 		res, err := r.pd.ResolveConstraintsFields(m)
 		if err != nil {
-			return "fields err:" + zErrClass(err)
+			// which credential's evaluation error is reported depends on Go map iteration order: the class is not printed
+			_ = zErrClass(err)
+			return "fields err"
 		}
 		keys := []string{}
 		for k := range res {
@@ -838,7 +840,7 @@ func (r *zRun) opFields(credMap [][]interface{}) {
 		}
 		return "fields ok {" + strings.Join(parts, ",") + "}"
 	}()
-	r.stats["fields:"+strings.SplitN(line, " ", 3)[1]]++
+	r.stats["fields:"+strings.SplitN(strings.SplitN(line, " ", 3)[1], ":", 2)[0]]++
 	r.emit(zOp{Op: "fields", CredMap: clean}, line)
 }
 
